@@ -96,13 +96,46 @@ func goTyped(x interface{}) interface{} {
 	return x
 }
 
+// plainTyped is goTyped below a top level that stays a plain map[string]interface{} (what a Go
+// caller who did not wrap the value in core.Map hands over, and what a script's object literal is).
+func plainTyped(x J) interface{} {
+	m := map[string]interface{}{}
+	for k, e := range x {
+		m[k] = goTyped(e)
+	}
+	return m
+}
+
 var (
+	// values of different type that print alike ("1" and 1, true and "true") are in on purpose
 	dataVals = []interface{}{1.0, "x", true, nil, A{1.0, "x"}, A{"x"}, A{}, J{"n": 1.0}, J{"n": "x", "m": 1.0}, J{},
-		A{J{"n": 1.0}, J{"n": "x"}}}
+		A{J{"n": 1.0}, J{"n": "x"}}, A{"1", 1.0}, A{true, "true"}, A{"x", "y"}}
 	patVals = []interface{}{1.0, "x", true, nil, A{1.0, "x"}, A{"x"}, A{}, J{"n": 1.0}, J{},
 		"?x", "?y", A{"?x"}, A{1.0, "?x"}, A{"x", "?y"}, J{"n": "?x"}, J{"n": "?y", "m": "?x"}, A{J{"n": "?x"}},
 		A{J{"n": "?x"}, J{"n": "?y"}}}
 )
+
+// hasNil: null anywhere in the value (a null binding reaches a script as undefined, which is about how
+// values are handed to scripts, not about matching; such cases are not asked through Env.match)
+func hasNil(x interface{}) bool {
+	switch v := x.(type) {
+	case nil:
+		return true
+	case map[string]interface{}:
+		for _, e := range v {
+			if hasNil(e) {
+				return true
+			}
+		}
+	case []interface{}:
+		for _, e := range v {
+			if hasNil(e) {
+				return true
+			}
+		}
+	}
+	return false
+}
 
 func universe(vals []interface{}) []J {
 	acc := []J{}
@@ -143,9 +176,15 @@ func main() {
 	ctx.Verbosity = core.NOTHING
 
 	run := func(p, d J, b0 J, via string) {
+		if via == "envmatch" && (hasNil(p) || hasNil(d)) {
+			via = "matches"
+		}
 		var pin, din interface{} = clone(p), clone(d)
 		if via == "gotyped" {
 			pin, din = goTyped(p), goTyped(d)
+		}
+		if via == "plaintyped" {
+			pin, din = plainTyped(p), plainTyped(d)
 		}
 		pcopy, dcopy, bcopy := cloneTyped(pin), cloneTyped(din), clone(b0)
 		bs := core.Bindings{}
@@ -154,7 +193,22 @@ func main() {
 		}
 		var bss []core.Bindings
 		var err error
-		if via == "matches" && len(b0) == 0 {
+		if via == "envmatch" {
+			// the same question asked by a script: Env.match(pattern, fact)
+			pj, _ := json.Marshal(p)
+			dj, _ := json.Marshal(d)
+			var v interface{}
+			v, err = core.RunJavascript(ctx, nil, nil, "JSON.stringify(Env.match("+string(pj)+", "+string(dj)+"))")
+			if err == nil {
+				var got []map[string]interface{}
+				if s, ok := v.(string); !ok || json.Unmarshal([]byte(s), &got) != nil {
+					err = fmt.Errorf("Env.match returned %v", v)
+				}
+				for _, b := range got {
+					bss = append(bss, core.Bindings(b))
+				}
+			}
+		} else if via == "matches" && len(b0) == 0 {
 			bss, err = core.Matches(ctx, pin, din)
 		} else {
 			bss, err = core.Match(ctx, pin, din, bs)
@@ -188,6 +242,12 @@ func main() {
 				run(p, d, J{"?x": 1.0}, "match")
 				run(p, d, J{}, "gotyped")
 			}
+			if k%(4**stride) == 0 {
+				run(p, d, J{}, "plaintyped")
+			}
+			if k%(5**stride) == 0 {
+				run(p, d, J{}, "envmatch")
+			}
 		}
 	}
 	// random, deeper cases derived from data so that many match
@@ -199,7 +259,7 @@ func main() {
 		if g.R.Intn(2) == 0 {
 			p = g.PatternOfData(d)
 		}
-		via := []string{"matches", "match", "gotyped"}[g.R.Intn(3)]
+		via := []string{"matches", "match", "gotyped", "plaintyped", "envmatch"}[g.R.Intn(5)]
 		b0 := J{}
 		if via == "match" && g.R.Intn(2) == 0 {
 			b0["?x"] = g.Scalar()
